@@ -66,7 +66,21 @@ PENDING_TRIAGE = [
     "rb_ac_x2_h1",           # repro_5: RESIZE_BILINEAR align_corners with IFM height 1 -> ValueError (NaN) in constraint_resize
     "lstm", "lstm_batch2", "lstm_clip", "lstm_t1",
                              # repro_6: batch-major UNIDIRECTIONAL_SEQUENCE_LSTM on Ethos-U55 -> AssertionError (LiveRange) / TypeError (no address)
+    "lstm_peephole",         # repro_10: CPU-placed operator with omitted optional inputs (-1) + --show-cpu-operations / --verbose-all
+                             #           -> AttributeError in stats_writer.format_tens_list (rc 1 after the output was written)
+    "log_i16", "sqrt_i16", "log_u8",
+                             # repro_11: LOG / SQRT (LUT operators of this fork) on int16 -> ValueError "math domain error" in
+                             #           lut.create_lut_int16_op (table built over the negative half too); LOG on uint8 -> AssertionError
+    # --- C03 (and C10) violations on the emitted stream
+    "tconv_s1_valid",        # repro_7: TRANSPOSE_CONV stride 1 VALID is emitted as an unpadded convolution whose IFM box (OFM + k - 1)
+                             #          exceeds the IFM: rows/columns past the tensor are fetched through tile 1/2 (C03 ReadsIntended, C10 Exact)
+    "pad_r3", "pad_hw_channel",
+                             # repro_8: PAD that pads the first or last dimension together with other dimensions: convert_pad_to_concat
+                             #          keeps only one axis, the rest of the OFM is never written and then read (C03 NoUninitRead)
+    "memonly:unpack_pack",   # repro_9: PACK/CONCATENATION result with batch > 1: the Add appended by add_add_op_after_concat covers batch 0
+                             #          only, the consumer reads stale bytes of another tensor (C03 ReadsIntended)
 ]
+corpus_ops.PENDING.update(k for k in PENDING_TRIAGE if ":" in k)
 
 
 def f_single(rng, seed, kind=None):
@@ -573,11 +587,19 @@ N_LEGACY_FAMILIES = len(FAMILIES) - len(corpus_ops.FAMILIES)
 
 # VERIF_CORPUS_LEGACY=1 restores the corpus as it was before the operator-coverage kinds / families were added
 # (used to measure the cost of the wider corpus and to reproduce older results)
-LEGACY_ONLY = os.environ.get("VERIF_CORPUS_LEGACY") == "1"
+# While the wider corpus is being triaged it is opt-in (VERIF_CORPUS_OPS=1); other agents' runs see the legacy corpus.
+OPS_DEFAULT_ON = False
+LEGACY_ONLY = (os.environ.get("VERIF_CORPUS_LEGACY") == "1" or
+               (not OPS_DEFAULT_ON and os.environ.get("VERIF_CORPUS_OPS") != "1"))
 
 # Quick tiers compile the 32 legacy kinds plus every OPS_ROTATION-th operator-coverage kind, the residue class being
 # chosen by the seed: seeds s, s+1, ..., s+OPS_ROTATION-1 together cover every kind.  Thorough tiers compile all.
 OPS_ROTATION = 6
+
+
+def ops_families():
+    """names of the operator-coverage families that are not pending triage (empty in legacy mode)"""
+    return [] if LEGACY_ONLY else [f for f in corpus_ops.FAMILIES if f not in PENDING_TRIAGE]
 
 
 def ops_kinds_for(seed, tier="quick"):
